@@ -71,7 +71,16 @@ def main(chk):
     import random as _random
     from . import deep
     ndeep, ddepth = (400, 3) if quick else (6000, 4)
-    for s, real in deep.schemas(chk.rng, ndeep, ddepth):
+    # always present (not left to the random draw): containers that are satisfiable although one
+    # member is a string schema the DSL accepts and nothing conforms to
+    fixed = []
+    for bad in (dict(deep.STR0, substr=[deep.VStr([97])], min_len=[deep.VInt(0)], max_len=[deep.VInt(0)]),
+                dict(deep.STR0, substr=[deep.VStr([98])], alphabet=[deep.VStr([97])])):
+        for s in ({"t": "list", "type": [bad], "elems": [], "len": [], "min_len": [deep.VInt(0)], "max_len": [deep.VInt(3)]},
+                  {"t": "dict", "keys": [[{"key": deep.VStr([97]), "val": bad, "opt": True}]]},
+                  {"t": "any", "types": [[bad, {"t": "none"}]]}):
+            fixed.append((s, am.g_schema(s)))
+    for s, real in fixed + deep.schemas(chk.rng, ndeep, ddepth):
         cache.cache[valgen.key(s)] = (real, None)
         for tape in (["lo"], ["hi"], ["lo1", "hi"], []):
             if tape:
